@@ -19,6 +19,8 @@ import (
 type Attempt struct {
 	User     string `json:"user"`
 	Password string `json:"password"`
+	// NoClientID: the CONNECT carries a zero-length client identifier (legal in MQTT 3.1.1)
+	NoClientID bool `json:"no_client_id,omitempty"`
 }
 
 type E2E struct {
@@ -74,7 +76,11 @@ func runE2E(c E2E) *failure {
 		k := cl.NewClient(fmt.Sprintf("att%d", i))
 		k.AttachTo(n)
 		will := fmt.Sprintf("will-of-attempt-%d", i)
-		k.Send(sim.EncConnect(sim.ConnectOpts{ClientID: k.Name, KeepAlive: 600, Username: a.User, Password: a.Password, WillTopic: "w", WillPayload: will}))
+		cid := k.Name
+		if a.NoClientID {
+			cid = ""
+		}
+		k.Send(sim.EncConnect(sim.ConnectOpts{ClientID: cid, KeepAlive: 600, Username: a.User, Password: a.Password, WillTopic: "w", WillPayload: will}))
 		if f := settle(); f != nil {
 			return f
 		}
@@ -213,14 +219,15 @@ func TestE2E(t *testing.T) {
 			e := c.Entries[rapid.IntRange(0, len(c.Entries)-1).Draw(t, "which")]
 			switch rapid.IntRange(0, 4).Draw(t, "kind") {
 			case 0, 1:
-				c.Attempts = append(c.Attempts, Attempt{e.User, e.Password})
+				c.Attempts = append(c.Attempts, Attempt{User: e.User, Password: e.Password})
 			case 2:
-				c.Attempts = append(c.Attempts, Attempt{e.User, e.Password + "x"})
+				c.Attempts = append(c.Attempts, Attempt{User: e.User, Password: e.Password + "x"})
 			case 3:
-				c.Attempts = append(c.Attempts, Attempt{e.Password, e.User})
+				c.Attempts = append(c.Attempts, Attempt{User: e.Password, Password: e.User})
 			default:
-				c.Attempts = append(c.Attempts, Attempt{rapid.StringMatching(`[a-z0-9_]{0,6}`).Draw(t, "u"), rapid.StringMatching(`[a-z0-9_]{0,6}`).Draw(t, "p")})
+				c.Attempts = append(c.Attempts, Attempt{User: rapid.StringMatching(`[a-z0-9_]{0,6}`).Draw(t, "u"), Password: rapid.StringMatching(`[a-z0-9_]{0,6}`).Draw(t, "p")})
 			}
+			c.Attempts[len(c.Attempts)-1].NoClientID = rapid.IntRange(0, 3).Draw(t, "noClientID") == 0
 		}
 		checkE2E(t, c)
 	})
